@@ -7,7 +7,7 @@ A world is plain JSON-able data (nothing of antiSMASH is imported here):
               "domains": [[s, e, "as"|"pfam"], ..], "gene_feature": bool}],
    "protoclusters": [{"core": [[s, e], ..], "extent": [[s, e], ..], "product", "rule", "nb", "cutoff",
                       "sideloaded": bool}],
-   "subregions": [{"extent": [[s, e], ..], "label", "sideloaded": bool}],
+   "subregions": [{"extent": [[s, e], ..], "label", "sideloaded": bool}],   (size "plasmid": small ring, wide areas)
    "generics": [{"type", "parts", "strand"}]}
 
 Everything is laid out on a ring of slots in unrotated coordinates and, for circular records, rotated so
@@ -60,8 +60,8 @@ def _split_codons(rng, total_nt: int, exons: int) -> list[int]:
 
 
 def gen_world(rng, size: str = "normal") -> dict:
-    circular = rng.random() < 0.6
-    n_slots = rng.choice([10, 14, 18, 24, 30] if size == "normal" else [30, 40, 60])
+    circular = rng.random() < 0.6 or size == "plasmid"
+    n_slots = rng.choice({"normal": [10, 14, 18, 24, 30], "large": [30, 40, 60], "plasmid": [5, 6, 8]}[size])
     lead = rng.choice([0, 0, 0, 35, 120])
     trail = rng.choice([0, 0, 0, 35, 120])
     length = lead + n_slots * SLOT + trail
@@ -119,7 +119,7 @@ def gen_world(rng, size: str = "normal") -> dict:
 
     # ---- protocluster clumps -------------------------------------------------------------------
     slots_with_genes = sorted(by_slot)
-    n_clumps = rng.choice([1, 2, 2, 3, 3, 4])
+    n_clumps = rng.choice([1, 2, 2, 3, 3, 4]) if size != "plasmid" else rng.choice([2, 3, 4])
     anchors = set()
     if not circular:
         if rng.random() < 0.4:
@@ -151,7 +151,7 @@ def gen_world(rng, size: str = "normal") -> dict:
             core_end = members[-1]["end"] + wraps[-1] * length
             if core_end <= core_start:
                 continue
-            nb = rng.choice([0, 40, 100, 200, 250, 400, 600])
+            nb = rng.choice([0, 40, 100, 200, 250, 400, 600] if size != "plasmid" else [200, 250, 400, 600])
             ext_start, ext_len = core_start - nb, core_end - core_start + 2 * nb
             if circular and ext_len >= length - 1:
                 continue
